@@ -762,7 +762,7 @@ package internal
 // and touches nothing else (RFC 9111 3.2).
 //@ spec func omitted304(h http.Header, k string) bool = isHop(h, k) || k == "Content-Length"
 //@ func updateStoredHeaders
-//@   property C08 C05 C01 C11 C12 C02
+//@   property C08 C05 C01 C11 C12 C02 C06
 //@   requires storedResp != nil && storedResp.Header != nil && resp != nil && resp.Header != nil && resp.Header != storedResp.Header
 //@   assigns map(storedResp.Header)
 //@   loop 0 invariant forall k string :: has(omitted, k) == omitted304(resp.Header, k)
